@@ -114,7 +114,10 @@ def rand_options(rng, src):
     o["doc_sync"] = rng.choice([None, None, "bykey_fn", "bykey_regex", "update", "NO_SYNC", "COPY"])
     o["recursive"] = rng.random() < 0.5
     # the last pattern also matches signac's own state point / document files, which are not data files
-    o["exclude"] = rng.choice([None, None, r".*_excl\.log", [r"^b\."], r"a\.txt", r".*\.json"])
+    o["exclude"] = rng.choice([None, None, r".*_excl\.log", [r"^b\."], r"a\.txt", r".*\.json",
+                              # two patterns, the first with a group, the second with a numbered back-reference: excludes
+                              # x_excl.log and data.txt
+                              [r"(x_excl)\.log", r"(d)(a)t\2\.txt"]])
     ids = sorted(src["jobs"])
     if ids and rng.random() < 0.3:
         o["selection"] = [rng.choice(["id", "job"]), rng.sample(ids, rng.randint(0, len(ids)))]
